@@ -36,9 +36,9 @@ void ParticleSet::resize(const std::size_t components, const std::size_t dim_lin
 {
     std::size_t new_dim = dim_linear + dim_circular * dim_circular_component;
 
-    if ((this->dim_linear == dim_linear) && (this->dim_circular = dim_circular) && (this->components == components))
+    if ((this->dim_linear == dim_linear) && (this->dim_circular == dim_circular) && (this->components == components))
         return;
-    else if ((this->dim == new_dim) && (this->components != components))
+    else if ((this->dim - this->dim_noise == new_dim) && (this->components != components))
         state_.conservativeResize(NoChange, components);
     else
     {
